@@ -1,0 +1,13 @@
+//go:build !verif
+
+// Package verifhook provides observation/gate points for the verification
+// harnesses under /verif. Without the build tag "verif" everything here is empty.
+package verifhook
+
+const Enabled = false
+
+type HandlerFunc func(point string, kv ...interface{})
+
+func SetHandler(HandlerFunc) {}
+
+func Point(string, ...interface{}) {}
